@@ -70,6 +70,7 @@ type ContractSet struct {
 	Lemmas     []Clause // SMT-level lemmas stated over spec functions (proved once)
 	TypeInvs   map[string][]Clause
 	FieldInvs  map[string][]Clause   // "Struct.field" -> invariants over $v (assumed at loads, proved at stores)
+	Frames     []*FrameDecl // who may change a field / call a function (C01 frame discipline)
 	Buffered   []*GuardDecl // channel fields that are sent to while a mutex is held: must be created with a positive constant capacity
 	Guards     map[string]*GuardDecl // synchronisation discipline per struct field (C09)
 	ChanInvs   map[string][]Clause   // invariant of the values travelling on channels of an element type: proved at sends, assumed at receives
@@ -77,7 +78,7 @@ type ContractSet struct {
 	Files      []string
 }
 
-var clauseKw = regexp.MustCompile(`^(func|iface|callback|spawn|fieldassume|fieldinv|safetyinv|sensures|srequires|borrowed-result|pool-result|releases|chaninv|guarded|confined|immutable|atomicfield|unshared|bufferedchan|holds|revent|event|step|uses|assumes|assume|requires|ensures|modifies|loop|invariant|decreases|unroll|trusted|props|safety|noinline|global-invariant|lemma|typeinv|end)\b`)
+var clauseKw = regexp.MustCompile(`^(func|iface|callback|spawn|fieldassume|fieldinv|safetyinv|sensures|srequires|borrowed-result|pool-result|releases|chaninv|guarded|confined|immutable|atomicfield|unshared|bufferedchan|writers|onlyvia|holds|revent|event|step|uses|assumes|assume|requires|ensures|modifies|loop|invariant|decreases|unroll|trusted|props|safety|noinline|global-invariant|lemma|typeinv|end)\b`)
 
 // LoadContracts reads //@ comment blocks from the given files.
 func LoadContracts(files ...string) (*ContractSet, error) {
@@ -172,6 +173,25 @@ func (cs *ContractSet) loadFile(path string) error {
 				return err
 			}
 			cs.Lemmas = append(cs.Lemmas, c)
+		case "writers", "onlyvia":
+			// writers T.f: F1, F2 | onlyvia G: F1, F2
+			txt := strings.TrimSpace(r.text)
+			i := strings.Index(txt, ": ")
+			if i < 0 {
+				if strings.HasSuffix(txt, ":") {
+					i = len(txt) - 1
+					txt += " "
+				} else {
+					return fmt.Errorf("%s:%d: %s needs 'target: function, ...'", path, r.line, r.kw)
+				}
+			}
+			fd := &FrameDecl{Kind: r.kw, Target: strings.TrimSpace(txt[:i]), Line: r.line}
+			for _, x := range splitTop(txt[i+2:]) {
+				if x = strings.TrimSpace(x); x != "" {
+					fd.Allowed = append(fd.Allowed, x)
+				}
+			}
+			cs.Frames = append(cs.Frames, fd)
 		case "guarded", "confined", "immutable", "atomicfield", "unshared", "bufferedchan":
 			// guarded T.f | confined T.f: root, root | immutable T.f | atomicfield T.f | unshared T.f: reason
 			txt := strings.TrimSpace(r.text)
